@@ -86,6 +86,15 @@ CLAIMED = {
         "fix_alpha, fix_alpha+fix_gamma and variances 0, tiny, comparable, 100x.",
    ref="5/C07", note=TB + "run-time wrapper around calibrate_utils.wls_sparse inside the harness process; no matching sections in the C07 conformance; "
         "single-ended cases inherit the known finding F1.", technique="Coq proof of the reduction + exact dyadic residual tests on captured solver input"),
+ "C03": dict(
+   text="Proof over Q: parameters at which every residual vanishes are a zero-cost WLS optimum and every other optimum reproduces all fitted values (T13, with "
+        "C01's T1/T3); the temperature equation inverts the Raman model exactly, forward and backward, with any total splice loss (T14, by field); matching "
+        "pairs are formed tuple by tuple and a permutation of the tuples only permutes the pairs (T15). Conformance: noise-free fibres generated exactly from "
+        "the model, crossed with single/double x 0-2 splices x {sections on both sides, front-only + matching sections} x {free, fix_gamma, fix_dalpha, "
+        "fix_alpha, fix_alpha+fix_gamma}; tmpf/tmpb/tmpw within 1e-5 K of the truth everywhere, gamma and dalpha/alpha recovered; match_sections pairs "
+        "compared with the model inside Coq.",
+   ref="5/C03", note=TB + "the 'enough information' premise is met by construction of the generator (and reported per case); the solver is judged on its output.",
+   technique="Coq proof (consistency => optimum, field identity) + ground-truth conformance over the option matrix"),
 }
 NA = {}
 ALL = [f"C{i:02d}" for i in range(1, 21)]
